@@ -10,12 +10,12 @@ PKG = 'control'
 C = MOD + '/control.'
 ROOTS = [C + 'VerifC08Value', C + 'VerifC08Doc', C + 'VerifC08Encoder']
 BOUNDS = {'quick': dict(N=4), 'thorough': dict(N=6)}
-VCH = b'\n \t.a'
+VCH = b'\n \t.a#'
 META = dict(
     functions_encoded=['(*Paragraph).WriteTo', '(*Paragraph).Set', 'control.NewEncoder', '(*Encoder).Encode/encode/encodeSlice/encodeStruct', 'control.convertToParagraph',
                        '(*Paragraph).Update', 'control.Marshal', 'the reader of C07', 'bytes.Buffer (from its SSA)'],
     stubs=['strings.Replace / Split / Join (position case split)', 'fmt.Sprintf("%s: %s\\n")', 'reflect model'],
-    bounds={'quick': 'values: every string of length <= 4 over {newline, space, tab, ".", "a"} that is a sequence of text lines a field can hold; documents: the C07 templates (read, write, read); encoder: 1-3 structs of 1-2 single-line fields, also with one struct that has nothing to write at each position',
+    bounds={'quick': 'values: every string of length <= 4 over {newline, space, tab, ".", "a", "#"} that is a sequence of text lines a field can hold; documents: the C07 templates (read, write, read); encoder: 1-3 structs of 1-2 single-line fields in four call groupings (one Encode per struct, struct then slice, one slice, slice then struct), also with one struct that has nothing to write at each position',
             'thorough': 'values of length <= 6'},
     outside_claim=['longer values', 'values with a line that is exactly "." or that carry trailing blanks (deb822 cannot represent them)'],
     assumptions=['values are compared up to one trailing newline on the first cycle and exactly on the second'])
@@ -46,7 +46,7 @@ def run_job(env, job):
         n = job['n']
         v = symstr('v', n)
         assume = [in_set(c, VCH) for c in v] + [v[pos] == VCH[ci] for pos, ci in enumerate(job['part'])]
-        return run_harness(env, PKG, 'VerifC08Value', [v], assume, unwind=4 * n + 60, sample='every value of length %d over {\\n, space, tab, ., a}' % n)
+        return run_harness(env, PKG, 'VerifC08Value', [v], assume, unwind=4 * n + 60, sample='every value of length %d over {\\n, space, tab, ., a, #}' % n)
     if job['kind'] == 'doc':
         rs = []
         for t in c07.templates(env.tier)[job['lo']:job['hi']]:
@@ -61,7 +61,8 @@ def run_job(env, job):
     for i in range(3):
         for j in range(2):
             args.append(Str(sym.leaf(1 if (i < k and j < f and i != job.get('empty')) else 0, c07.VIS, c07.PRN, last=c07.VIS)))
-    return run_harness(env, PKG, 'VerifC08Encoder', [k, f] + args, sym.assume, unwind=80, sample='%d paragraphs of %d fields through one Encoder' % (k, f))
+    return merge_results([run_harness(env, PKG, 'VerifC08Encoder', [k, f] + args + [g], sym.assume, unwind=80,
+                                      sample='%d paragraphs of %d fields through one Encoder, grouping %d (0 one call each, 1 struct then slice, 2 one slice, 3 slice then struct / one-element slices)' % (k, f, g)) for g in (0, 1, 2, 3)])
 
 
 def validation_calls(env, seed):
@@ -73,7 +74,10 @@ def validation_calls(env, seed):
         calls.append(('VerifC08Value', [bytes(rnd.choice(VCH) for _ in range(rnd.randint(0, 6)))]))
     calls.append(('VerifC08Doc', [b'A: b\n c\n\nD: e']))
     calls.append(('VerifC08Doc', [b'F:\n x\n .\n y\n']))
-    calls.append(('VerifC08Encoder', [2, 2, b'a', b'b', b'c', b'd', b'', b'']))
+    calls.append(('VerifC08Encoder', [2, 2, b'a', b'b', b'c', b'd', b'', b'', 0]))
+    calls.append(('VerifC08Encoder', [3, 2, b'a', b'b', b'c', b'd', b'e', b'f', 1]))
+    calls.append(('VerifC08Encoder', [3, 2, b'a', b'b', b'c', b'd', b'e', b'f', 3]))
+    calls.append(('VerifC08Encoder', [2, 1, b'a', b'', b'c', b'', b'', b'', 2]))
     return calls
 
 
